@@ -324,15 +324,27 @@ def load_known():
 def main(module, argv=None):
     import argparse
     ap = argparse.ArgumentParser()
-    ap.add_argument("--tier", default=os.environ.get("VERIF_TIER", "quick"))
-    ap.add_argument("--seed", type=int, default=int(os.environ.get("VERIF_SEED", "0")))
+    ap.add_argument("--tier", default=None)
+    ap.add_argument("--seed", type=int, default=None)
     ap.add_argument("--replay", default=None)
     ap.add_argument("--workers", type=int, default=NWORKERS)
     ap.add_argument("--cases", type=int, default=None)
     ap.add_argument("--seconds", type=float, default=None)
     ap.add_argument("--keep", action="store_true")
     args = ap.parse_args(argv)
-    tier, seed = args.tier, args.seed
+    recorded = {}
+    if args.replay:
+        try:
+            rf = json.load(open(args.replay))
+            if isinstance(rf, dict) and "case" in rf and "property" in rf:
+                recorded = rf      # a replay file carries the seed and tier of the run that wrote it: some monitors
+                #                    derive further inputs (schedules, derived programs) from the run's seed
+        except (OSError, ValueError):
+            pass
+    tier = args.tier or (recorded.get("tier") if recorded.get("tier") in module.VARIANTS else None) or \
+        os.environ.get("VERIF_TIER", "quick")
+    seed = args.seed if args.seed is not None else \
+        (recorded["seed"] if isinstance(recorded.get("seed"), int) else int(os.environ.get("VERIF_SEED", "0")))
     modname = module.__name__
     if modname == "__main__":
         modname = "checks." + os.path.splitext(os.path.basename(module.__file__))[0]
